@@ -191,6 +191,14 @@ def render_body(f, ind, is_method_with_super=False):
     L.append(f"{j}    _RUN.discard(_op[1])")
     L.append(f"{j}elif _k == 17:")
     L.append(f"{j}    _R((\"RND\", _c, _RND()))")
+    if names:
+        # return the object currently bound to a parameter (possibly re-bound since the call started)
+        L.append(f"{j}elif _k == 18:")
+        for n_i, n in enumerate(names):
+            kw = "if" if n_i == 0 else "elif"
+            L.append(f"{j}    {kw} _op[1] == \"{n}\": _v = {n}")
+        L.append(f"{j}    else: _v = None")
+        L.append(f"{j}    _R((\"R\", _c, _v)); return _v")
     if f["fid"] == 0:
         L.append(f"{j}elif _k == 16:")
         L.append(f"{j}    _op[1]()")
